@@ -378,7 +378,8 @@ sys_prop(
      "C13_remove_drops_exactly_the_removed", "C13_take_hands_over_then_the_caller_drops",
      "C13_clear_drops_every_entry", "C13_entries_reachable_through_handles_survive_loads",
      "C13_lookup_is_by_type"],
-    ["Entry"], ["value-not-dropped-exactly-once", "handle-changed"], mode="all")
+    ["Entry"], ["value-not-dropped-exactly-once", "handle-changed", "torn-read", "guard-not-pinned"], mode="all",
+    extra_engines=[("rwdiff", [])])
 
 sys_prop(
     "C14",
@@ -477,4 +478,75 @@ PROPS["C01"] = dict(
     trusted_base=["the OS scheduler explores interleavings by chance in the runs; the theorem covers all"],
     modelled=["keys and addresses as numbers; each map operation atomic; loaders thread-local"],
     assumptions=["no remove/take/clear during the race (they need &mut self)"],
+)
+
+SRC_RULE = ("srcdiff: generated trees (depth <= 3, fan-out <= 4; names with unicode, spaces and > 100 byte paths; "
+            "one stem with several extensions, the empty extension, a directory and a file sharing an id; "
+            "contents empty / binary / numeric) materialised as a real directory (FileSystem), zip and tar "
+            "archives (stored / deflated, member order as generated / reversed / shuffled, with all / no / "
+            "some directory members, optional ./ prefix, in memory and file-backed) and a fixed tree "
+            "embedded at compile time; every source answers the same questions: read / exists of every "
+            "file and of absent (id, ext) pairs incl. the empty id, read_dir / exists of every directory, "
+            "of file ids and of absent ids, the root, and load_dir / load_rec_dir for extension lists "
+            "[x], [p,q,r], [\"\"] and Arc<_>; answers are compared with the tree specification (listings "
+            "as multisets, so a child listed twice is a failure); iter / iter_cached by a monitor.  "
+            "Non-trivial = tree with >= 2 files and >= 2 directories; distinct = distinct printed case.")
+
+PROPS["C04"] = dict(
+    technique="Coq specification of what a source must answer for a tree (with proofs that listings are exactly "
+              "the direct children and every listed entry is there) + translation validation: the same "
+              "generated tree through FileSystem, Zip, Tar and Embedded, every answer checked against the "
+              "specification inside Coq",
+    level_text="Theorems (Props/C04.v, closed under the global context) about the specification Ref.Tree: a "
+               "listing contains exactly the files and directories whose parent is the directory, every "
+               "listed entry exists / is readable under the id and extension it was listed with, read_dir "
+               "answers exactly for directories (the root included).  That the four real sources implement "
+               "this specification is checked by srcdiff for every generated tree and archive variant "
+               "(level translation_validation for that half): no theorem is about register_file itself "
+               "(its HashMap entry API is outside the interpreted Rust subset); zip / tar / flate2 decoding, "
+               "SyncFile cloning and the OS filesystem are exercised, not modelled.",
+    level_note="Trusted: Coq kernel+VM, the harness (tree generator, archive writers of the zip and tar crates, "
+               "answer printers), the checkers in Corr/SrcCheck.v.  I5: archives with the same member path "
+               "twice are not generated.",
+    gen=[],
+    model_files=["Ref/Tree.v", "Corr/Common.v", "Corr/SrcCheck.v"],
+    model_targets=["Corr/SrcCheck.vo"],
+    proof_files=["Proofs/Tree.v", "Props/C04.v"],
+    proof_targets=["Props/C04.vo"],
+    props_module="Props.C04",
+    theorems=["C04_listing_is_exactly_the_direct_children", "C04_listed_entries_are_readable_under_their_id",
+              "C04_read_dir_answers_exactly_for_directories"],
+    engines=[("srcdiff", [])],
+    rule=SRC_RULE,
+    trusted_base=["zip / tar writers used to build the archives"],
+    modelled=["a tree as files (id, ext, bytes) + directories"],
+    assumptions=["valid names (I4); no duplicate member paths (I5)"],
+)
+
+PROPS["C11"] = dict(
+    technique="Coq specification of directory assets over the tree specification (exactly the matching files; "
+              "missing directory is an error) + translation validation through every source kind (srcdiff) "
+              "and the system model's Directory / RecursiveDirectory loads incl. unreadable sub-directories "
+              "(sysdiff)",
+    level_text="Theorems (Props/C11.v, closed under the global context): the ids of load_dir::<T>(d) in the "
+               "specification are exactly the ids of the files directly in d carrying one of T's extensions; "
+               "a missing directory is an error for load_dir and load_rec_dir.  Sortedness, absence of "
+               "duplicates, the recursive union, iter and iter_cached are checked on the real crate for every "
+               "generated tree, source kind and extension list by srcdiff (checker sorted_nodup / multiset "
+               "equality inside Coq); `an unreadable sub-directory is skipped without hiding its siblings` is "
+               "the sysdiff correspondence with Ref.Sys.load_rec_dir_value.",
+    level_note="Trusted: as C04; the sort order compared is byte order of the joined ids.",
+    gen=[],
+    model_files=["Ref/Tree.v", "Corr/Common.v", "Corr/SrcCheck.v", "Ref/Load.v", "Ref/Sys.v", "Corr/SysCheck.v"],
+    model_targets=["Corr/SrcCheck.vo", "Corr/SysCheck.vo"],
+    proof_files=["Proofs/Tree.v", "Props/C11.v"],
+    proof_targets=["Props/C11.vo"],
+    props_module="Props.C11",
+    theorems=["C11_dir_ids_are_exactly_the_matching_files", "C11_missing_directory_is_an_error"],
+    engines=[("srcdiff", []), ("sysdiff", ["--mode", "cold", "--cases", "200"])],
+    relevant_classes=["iter-mismatch"],
+    rule=SRC_RULE,
+    trusted_base=["zip / tar writers used to build the archives"],
+    modelled=["a tree as files (id, ext, bytes) + directories"],
+    assumptions=["valid names (I4)"],
 )
